@@ -14,6 +14,7 @@ package iam
 import (
 	"context"
 	"encoding/json"
+	"errors"
 	"fmt"
 	"net/http"
 	"net/url"
@@ -64,7 +65,23 @@ type c05Case struct {
 	// Hist, when set, makes the case a SEQUENTIAL replay history instead of a schedule: request i presents the same
 	// value Hist[i] seconds (non-decreasing, harness clock) after the first one. Roles and Schedule are unused then.
 	Hist []int `json:"hist,omitempty"`
+	// Faults is the fault plan of the session store's back-end (go-cache itself cannot fail, Redis/memcached can).
+	Faults []c05Fault `json:"faults,omitempty"`
 }
+
+// c05Fault: among the back-end calls issued by the requests of the case (not by the fixture), the Nth call of kind Op
+// (get | set | del) on a key starting with Key is answered with an error instead of being executed, and so are the
+// Count-1 matching calls after it (a transient outage).
+type c05Fault struct {
+	Op    string `json:"op"`
+	Key   string `json:"key,omitempty"`
+	Nth   int    `json:"nth"`
+	Count int    `json:"count"`
+}
+
+func (f c05Fault) String() string { return fmt.Sprintf("%s#%dx%d@%q", f.Op, f.Nth, f.Count, f.Key) }
+
+var c05ErrInjected = errors.New("injected fault: session store back-end unavailable")
 
 // ---------------------------------------------------------------------------------------------------------------------
 // instrumented store
@@ -85,6 +102,56 @@ type c05Store struct {
 	// harness clock passed their expiry; nothing sleeps. The real go-cache expiry (wall clock) stays in force as well.
 	vnow   time.Duration
 	expiry map[string]time.Duration
+	// fault plan (see c05Fault): seen counts the matching calls per fault, armed switches the plan on for calls from the
+	// test goroutine (sequential histories), cur is the request those calls belong to, fired logs what was failed.
+	faults  []c05Fault
+	seen    []int
+	armed   bool
+	cur     int
+	fired   []string
+	firedOp map[string]bool
+}
+
+func (c *c05Store) arm(on bool, request int) {
+	c.mu.Lock()
+	c.armed, c.cur = on, request
+	c.mu.Unlock()
+}
+
+// fault decides whether this back-end call fails. Only calls made by requests count: scheduled actors, or the test
+// goroutine while armed.
+func (c *c05Store) fault(op string, key any, actor int) error {
+	c.mu.Lock()
+	defer c.mu.Unlock()
+	if len(c.faults) == 0 || (actor < 0 && !c.armed) {
+		return nil
+	}
+	if actor < 0 {
+		actor = c.cur
+	}
+	if c.seen == nil {
+		c.seen = make([]int, len(c.faults))
+	}
+	k := fmt.Sprint(key)
+	fail := false
+	for i, f := range c.faults {
+		if f.Op != op || !strings.HasPrefix(k, f.Key) {
+			continue
+		}
+		c.seen[i]++
+		if c.seen[i] >= f.Nth && c.seen[i] < f.Nth+f.Count {
+			fail = true
+		}
+	}
+	if !fail {
+		return nil
+	}
+	c.fired = append(c.fired, fmt.Sprintf("request %d: %s %s", actor, op, k))
+	if c.firedOp == nil {
+		c.firedOp = map[string]bool{}
+	}
+	c.firedOp[op] = true
+	return c05ErrInjected
 }
 
 const c05DefaultTTL = 15 * time.Minute // what NewInMemorySessionDatabase gives go-cache as default expiration
@@ -134,7 +201,7 @@ func (c *c05Store) noteSet(key any, options []store.Option) {
 	}
 }
 
-func (c *c05Store) point(op string, key any) {
+func (c *c05Store) point(op string, key any) int {
 	k := fmt.Sprint(key)
 	a := c.s.Actor()
 	if a >= 0 {
@@ -143,25 +210,38 @@ func (c *c05Store) point(op string, key any) {
 		c.ops = append(c.ops, c05Op{Actor: a, Op: op, Key: k})
 		c.mu.Unlock()
 	}
+	return a
 }
 
 func (c *c05Store) Get(ctx context.Context, key any) (any, error) {
-	c.point("get", key)
+	a := c.point("get", key)
+	if err := c.fault("get", key, a); err != nil {
+		return nil, err
+	}
 	c.age(ctx, key)
 	return c.inner.Get(ctx, key)
 }
 func (c *c05Store) GetWithTTL(ctx context.Context, key any) (any, time.Duration, error) {
-	c.point("getttl", key)
+	a := c.point("getttl", key)
+	if err := c.fault("get", key, a); err != nil {
+		return nil, 0, err
+	}
 	c.age(ctx, key)
 	return c.inner.GetWithTTL(ctx, key)
 }
 func (c *c05Store) Set(ctx context.Context, key any, value any, options ...store.Option) error {
-	c.point("set", key)
+	a := c.point("set", key)
+	if err := c.fault("set", key, a); err != nil {
+		return err
+	}
 	c.noteSet(key, options)
 	return c.inner.Set(ctx, key, value, options...)
 }
 func (c *c05Store) Delete(ctx context.Context, key any) error {
-	c.point("del", key)
+	a := c.point("del", key)
+	if err := c.fault("del", key, a); err != nil {
+		return err
+	}
 	c.mu.Lock()
 	delete(c.expiry, fmt.Sprint(key))
 	c.mu.Unlock()
@@ -409,6 +489,38 @@ func init() {
 // ---------------------------------------------------------------------------------------------------------------------
 // run + oracle
 
+func c05CheckFaults(x *h.Ctx, faults []c05Fault) {
+	for _, f := range faults {
+		if (f.Op != "get" && f.Op != "set" && f.Op != "del") || f.Nth < 1 || f.Count < 1 || f.Count > 100 {
+			x.Fatalf("malformed fault %+v", f)
+		}
+	}
+}
+
+// c05FaultClasses records the plan and whether it was reached; it returns the signature suffix for violations that
+// happened with a back-end fault in play ("" without one) and the text for the violation message.
+func c05FaultClasses(x *h.Ctx, c c05Case, st *c05Store) (sigSuffix string, text string) {
+	if len(c.Faults) == 0 {
+		x.Class("faults:none")
+		return "", ""
+	}
+	for _, f := range c.Faults {
+		x.Classf("fault-plan:%s#%dx%d", f.Op, f.Nth, f.Count)
+	}
+	if len(st.fired) == 0 {
+		x.Class("fault-plan-not-reached")
+		return "", fmt.Sprintf("fault plan %v: not reached\n", c.Faults)
+	}
+	x.Class("fault-fired")
+	for _, op := range []string{"del", "get", "set"} {
+		if st.firedOp[op] {
+			x.Class("fault-fired:" + op)
+			sigSuffix += ":fault-" + op
+		}
+	}
+	return sigSuffix, fmt.Sprintf("fault plan %v; back-end calls answered with an error: %s\n", c.Faults, strings.Join(st.fired, "; "))
+}
+
 // c05Last hands the trace of the most recent run to the enumerator (h.Each calls run synchronously).
 var c05Last struct {
 	tr  sched.Trace
@@ -445,9 +557,11 @@ func c05Run(x *h.Ctx, c c05Case) {
 	if n < 1 || n > 4 {
 		x.Fatalf("bad number of requests %d", n)
 	}
+	c05CheckFaults(x, c.Faults)
 	s := sched.New(n, sched.Options{})
 	fx := c05NewFixture(s)
 	secretKey, request := k.setup(x, fx, c.Claims)
+	fx.st.faults = c.Faults // the fixture's own calls above and below never fail: only calls of scheduled requests do
 	out := make([]c05Outcome, n)
 	tr, err := s.Run(c.Schedule, func(i int) { out[i] = request(c.Roles[i], i) })
 	c05Last.tr, c05Last.err = tr, err
@@ -525,6 +639,7 @@ func c05Run(x *h.Ctx, c c05Case) {
 	}
 	x.Classf("steps=%d", len(tr.Steps))
 	h.Count(c05ID, x.Unit, "store_ops_scheduled", len(tr.Steps))
+	faultSig, faultText := c05FaultClasses(x, c, fx.st)
 
 	// --- oracle ---
 	succ := 0
@@ -543,10 +658,11 @@ func c05Run(x *h.Ctx, c c05Case) {
 		for i, st := range tr.Steps {
 			fmt.Fprintf(&b, "  %2d. request %d: %s\n", i, st.Actor, st.Op)
 		}
+		b.WriteString(faultText)
 		return b.String()
 	}
 	if succ > 1 {
-		c05Violate(x, "double-spend:"+c.Kind, "%d of %d requests presenting the same %s succeeded\n%s", succ, n, c.Kind, describe())
+		c05Violate(x, "double-spend:"+c.Kind+faultSig, "%d of %d requests presenting the same %s succeeded\n%s", succ, n, c.Kind, describe())
 	}
 	// dead after a failed attempt: a defective request that had returned its error response before a correct request
 	// performed its first store operation must have killed the code.
@@ -560,6 +676,12 @@ func c05Run(x *h.Ctx, c c05Case) {
 				continue
 			}
 			x.Class("correct-request-starts-after-failed-one-returned")
+			if fx.st.firedOp["del"] {
+				// the back-end refused a delete: the entry physically remains, which the handler cannot prevent. Only the
+				// at-most-once oracle above is applied then (the request whose burn failed must not have been honoured).
+				x.Class("dead-after-failed-attempt-not-judged(delete-fault)")
+				continue
+			}
 			if out[g].OK {
 				c05Violate(x, "alive-after-failed-attempt:"+c.Kind+":"+c.Roles[d], "request %d succeeded although request %d (%s) had failed before it started\n%s", g, d, c.Roles[d], describe())
 			}
@@ -572,7 +694,7 @@ func c05Run(x *h.Ctx, c c05Case) {
 		}
 	}
 	// sanity of the fixture: a purely sequential run of correct requests must honour the first one
-	if sw == 0 && !defective && succ == 0 {
+	if sw == 0 && !defective && succ == 0 && len(fx.st.fired) == 0 {
 		x.Fatalf("no request succeeded in a sequential run: fixture problem\n%s", describe())
 	}
 }
@@ -624,13 +746,17 @@ func c05RunHistory(x *h.Ctx, c c05Case, k *c05Kind) {
 	if !known {
 		x.Fatalf("kind %s has no claims variant %q", c.Kind, c.Claims)
 	}
+	c05CheckFaults(x, c.Faults)
 	s := sched.New(1, sched.Options{}) // never run: requests are issued from this goroutine, which is no actor
 	fx := c05NewFixture(s)
 	_, request := k.setup(x, fx, c.Claims)
+	fx.st.faults = c.Faults
 	out := make([]c05Outcome, n)
 	for i, off := range c.Hist {
 		fx.st.advanceTo(time.Duration(off) * time.Second)
+		fx.st.arm(true, i)
 		out[i] = request("ok", i)
+		fx.st.arm(false, i)
 		if out[i].OK && out[i].Post != nil {
 			if why := out[i].Post(); why != "" {
 				out[i].OK, out[i].Detail = false, out[i].Detail+"; but: "+why
@@ -648,6 +774,7 @@ func c05RunHistory(x *h.Ctx, c c05Case, k *c05Kind) {
 	x.Class("kind:" + c.Kind)
 	x.Classf("claims:%s:%s", c.Kind, c.Claims)
 	x.Classf("history-length=%d", n)
+	faultSig, faultText := c05FaultClasses(x, c, fx.st)
 	firstOK := -1
 	succ := 0
 	for i, o := range out {
@@ -684,9 +811,10 @@ func c05RunHistory(x *h.Ctx, c c05Case, k *c05Kind) {
 		for i, o := range out {
 			fmt.Fprintf(&b, "  t+%ds request %d: ok=%v %s\n", c.Hist[i], i, o.OK, o.Detail)
 		}
+		b.WriteString(faultText)
 		return b.String()
 	}
-	if c.Claims == "" && !out[0].OK {
+	if c.Claims == "" && !out[0].OK && len(fx.st.fired) == 0 {
 		x.Fatalf("first presentation of a value with current time claims was refused: fixture problem\n%s", describe())
 	}
 	for i := 0; i < n; i++ {
@@ -703,7 +831,7 @@ func c05RunHistory(x *h.Ctx, c c05Case, k *c05Kind) {
 			if gap > 0 {
 				when = "delayed"
 			}
-			c05Violate(x, "replay-honoured:"+c.Kind+":"+when, "request %d and request %d (%v later) presenting the same %s were both honoured\n%s", i, j, gap, c.Kind, describe())
+			c05Violate(x, "replay-honoured:"+c.Kind+":"+when+faultSig, "request %d and request %d (%v later) presenting the same %s were both honoured\n%s", i, j, gap, c.Kind, describe())
 			return
 		}
 	}
@@ -727,12 +855,38 @@ func c05Histories() [][]int {
 	return out
 }
 
+// c05FaultPlans: a single transient outage of the session store's back-end, hitting the n-th get / set / del issued by the
+// requests (any key) and lasting for 1..3 calls of that kind. A request performs at most a handful of calls, so n <= 3
+// reaches every call site of the first request and the first ones of the second.
+func c05FaultPlans() [][]c05Fault {
+	var out [][]c05Fault
+	for _, op := range []string{"del", "set", "get"} {
+		for nth := 1; nth <= 3; nth++ {
+			for count := 1; count <= 3; count++ {
+				out = append(out, []c05Fault{{Op: op, Nth: nth, Count: count}})
+			}
+		}
+	}
+	// read and write path down together, and the delete path down for the whole first request
+	out = append(out, []c05Fault{{Op: "del", Nth: 1, Count: 1}, {Op: "set", Nth: 1, Count: 1}})
+	out = append(out, []c05Fault{{Op: "del", Nth: 1, Count: 5}})
+	return out
+}
+
 func c05EnumerateHistories(yield func(c05Case) bool) {
 	for _, name := range c05KindOrder {
 		k := c05Kinds[name]
 		for _, claims := range append([]string{""}, k.claims...) {
 			for _, hist := range c05Histories() {
 				if !yield(c05Case{Kind: name, Claims: claims, Hist: hist}) {
+					return
+				}
+			}
+		}
+		// back-end faults: immediate and slightly delayed replays, two to four requests
+		for _, plan := range c05FaultPlans() {
+			for _, hist := range [][]int{{0, 0}, {0, 0, 0}, {0, 0, 0, 0}, {0, 2, 4}} {
+				if !yield(c05Case{Kind: name, Hist: hist, Faults: plan}) {
 					return
 				}
 			}
@@ -774,10 +928,29 @@ func c05Enumerate(t *testing.T, n int, capPerSpace int) func(yield func(c05Case)
 	return func(yield func(c05Case) bool) {
 		for _, name := range c05KindOrder {
 			k := c05Kinds[name]
+			type space struct {
+				roles  []string
+				faults []c05Fault
+			}
+			var spaces []space
 			for _, roles := range c05RoleSets(k, n) {
+				spaces = append(spaces, space{roles: roles})
+			}
+			if n == 2 {
+				// a few back-end fault plans under every interleaving of two correct requests, and of a defective + a correct one
+				for _, plan := range [][]c05Fault{{{Op: "del", Nth: 1, Count: 1}}, {{Op: "del", Nth: 1, Count: 2}}, {{Op: "del", Nth: 2, Count: 2}}, {{Op: "set", Nth: 1, Count: 1}}, {{Op: "get", Nth: 2, Count: 1}}} {
+					sets := c05RoleSets(k, n)
+					spaces = append(spaces, space{roles: sets[0], faults: plan})
+					if len(sets) > 1 {
+						spaces = append(spaces, space{roles: sets[1], faults: plan})
+					}
+				}
+			}
+			for _, sp := range spaces {
+				roles := sp.roles
 				stop := false
 				executed, complete := sched.Explore(capPerSpace, func(prefix []int) (sched.Trace, bool) {
-					c := c05Case{Kind: name, Roles: roles, Schedule: append([]int{}, prefix...)}
+					c := c05Case{Kind: name, Roles: roles, Schedule: append([]int{}, prefix...), Faults: sp.faults}
 					// a deviation from an enumerated prefix means the run was not deterministic: retry a few times
 					for attempt := 0; ; attempt++ {
 						if !yield(c) {
@@ -798,6 +971,9 @@ func c05Enumerate(t *testing.T, n int, capPerSpace int) func(yield func(c05Case)
 					return c05Last.tr, true
 				})
 				space := fmt.Sprintf("%s/n=%d/%s", name, n, strings.Join(roles, ","))
+				for _, f := range sp.faults {
+					space += "/" + f.String()
+				}
 				h.Count(c05ID, unit, "schedules["+space+"]", executed)
 				if complete {
 					h.Count(c05ID, unit, "spaces_enumerated_exhaustively", 1)
